@@ -315,6 +315,13 @@ func replayCase(sub string, raw json.RawMessage) string {
 			return m
 		}
 		return checkCustom(c).msg
+	case "determinism":
+		var c detCase
+		if m := un(&c); m != "" {
+			return m
+		}
+		msg, _ := checkDet(c)
+		return msg
 	case "option-reuse":
 		var c reuseCase
 		if m := un(&c); m != "" {
@@ -360,6 +367,7 @@ func TestC19(t *testing.T) {
 	runCustom(t)
 	runHistory(t)
 	runReuse(t)
+	runDeterminism(t)
 	runAmbient(t)
 }
 
@@ -367,7 +375,7 @@ func jsonMarshal(v any) ([]byte, error) { return json.Marshal(v) }
 
 // sample spreads the shards' sample reservoirs over the sub-checks: shard i
 // samples only the sub-check i mod 6.
-var sampleSubs = []string{"custom", "ambient", "input", "vars", "deny", "environ", "history", "option-reuse"}
+var sampleSubs = []string{"custom", "ambient", "input", "vars", "deny", "environ", "history", "option-reuse", "determinism"}
 
 func sample(sub string, v any) {
 	if sampleSubs[rec.Shard%len(sampleSubs)] == sub {
